@@ -95,6 +95,8 @@ impl Client {
         match r {
             Ok(1) => Some(b[0]),
             Ok(_) => Some(0), // EOF
+            // the server side was dropped with our byte unread: the connection is closed as well
+            Err(e) if matches!(e.kind(), std::io::ErrorKind::ConnectionReset | std::io::ErrorKind::BrokenPipe) => Some(0),
             Err(_) => None,
         }
     }
@@ -189,11 +191,21 @@ impl World {
         self.next_id += 1;
         let c = if uds {
             let mut s = std::os::unix::net::UnixStream::connect(&self.uds[l]).map_err(|e| format!("{:?}", e.kind()))?;
-            s.write_all(&[id]).map_err(|e| e.to_string())?;
+            // the server may already have closed the connection (e.g. it sat in the queue of a worker
+            // that died): the client is connected all the same and will read end-of-stream
+            match s.write_all(&[id]) {
+                Ok(()) => {}
+                Err(e) if matches!(e.kind(), std::io::ErrorKind::BrokenPipe | std::io::ErrorKind::ConnectionReset) => {}
+                Err(e) => return Err(e.to_string()),
+            }
             Client::Uds(s)
         } else {
             let mut s = std::net::TcpStream::connect(self.tcp[l]).map_err(|e| format!("{:?}", e.kind()))?;
-            s.write_all(&[id]).map_err(|e| e.to_string())?;
+            match s.write_all(&[id]) {
+                Ok(()) => {}
+                Err(e) if matches!(e.kind(), std::io::ErrorKind::BrokenPipe | std::io::ErrorKind::ConnectionReset) => {}
+                Err(e) => return Err(e.to_string()),
+            }
             Client::Tcp(s)
         };
         self.clients.insert(id, c);
